@@ -290,6 +290,11 @@ def Value.ok : Value → Bool
   | .refs l => References.ok l
   | .mixed l => RefLLs.ok l
 
+/-- every mixed element is either a reference or a lat/lng (the domain of the round-trip property) -/
+def Value.canonical : Value → Bool
+  | .mixed l => l.all RefLL.canonical
+  | _ => true
+
 def Value.enc (tns : BitVec 16) : Value → Bytes
   | .int v => putUvarint (encodeValueType 0 v.toNat)
   | .point ll => ll.enc
@@ -318,6 +323,7 @@ def Tag.dec (tns : BitVec 16) : Dec Tag :=
   dUvarint.andThen fun k => (Value.dec tns).map fun v => ⟨BitVec.ofNat 64 k, v⟩
 
 def Tags.ok (ts : List Tag) : Bool := decide (ts.length < 2 ^ 63) && ts.all (fun t => t.value.ok)
+def Tags.canonical (ts : List Tag) : Bool := ts.all (fun t => t.value.canonical)
 def Tags.enc (tns : BitVec 16) (ts : List Tag) : Bytes :=
   putUvarint ts.length ++ encEach (fun (_ : Unit) t => (Tag.enc tns t, ())) () ts
 def Tags.marshal (tns : BitVec 16) (ts : List Tag) : Option Bytes :=
@@ -342,6 +348,8 @@ def Member.dec (p : BitVec 16) : Dec Member :=
   dUvarint.andThen fun w => (Reference.dec p).map fun id =>
     ⟨BitVec.ofNat 64 (w % 4), BitVec.ofNat 64 (w / 4), id⟩
 
+/-- the member type fits the `FeatureTypeBits = 2` bits of the role word (point, path, area, relation) -/
+def Member.typeOk (m : Member) : Bool := decide (m.type.toNat < 4)
 def Members.ok (ms : List Member) : Bool := decide (ms.length < 2 ^ 63) && ms.all Member.ok
 def Members.enc (p : BitVec 16) (ms : List Member) : Bytes :=
   putUvarint ms.length ++ encEach (fun (_ : Unit) m => (Member.enc p m, ())) () ms
@@ -453,6 +461,9 @@ def AreaGeometry.ok : AreaGeometry → Bool
   | .refs a => a.ok
   | .latlngs ps => AreaGeomLL.ok ps
   | .mixed ps => AreaGeomMixed.ok ps
+def AreaGeometry.canonical : AreaGeometry → Bool
+  | .mixed ps => ps.all PolygonMixed.canonical
+  | _ => true
 def AreaGeometry.enc (p : BitVec 16) : AreaGeometry → Bytes
   | .refs a => a.enc p
   | .latlngs ps => AreaGeomLL.enc ps
